@@ -5,6 +5,10 @@ import Reduino.Lemmas.C01b
 import Reduino.Lemmas.C01c
 import Reduino.Lemmas.C01d
 import Reduino.Lemmas.C01e
+import Reduino.Lemmas.C01f
+import Reduino.Lemmas.C01g
+import Reduino.Lemmas.C01h
+import Reduino.Lemmas.C01i
 /- helper lemmas for Props/C01.lean (individual Mathlib modules may be imported here) -/
 namespace Reduino.Lemmas.C01
 end Reduino.Lemmas.C01
